@@ -18,6 +18,15 @@ only = set(opt("--only", "").split(",")) - {""}
 props = set(opt("--props", "").split(",")) - {""}
 root = "/verif/seeded"
 summary = []
+baseline_ok = {}
+def baseline(prop):
+    """A catch only counts if the check is silent on the unchanged tree."""
+    if prop not in baseline_ok:
+        env = dict(os.environ, VERIF_OUT="/tmp/sr-base-" + prop, VERIF_SEED=str(seeds[0]))
+        p = subprocess.run(["/verif/check", prop, tier], cwd="/verif", env=env, stdout=subprocess.PIPE, stderr=subprocess.STDOUT, text=True)
+        baseline_ok[prop] = p.returncode == 0
+        shutil.rmtree("/tmp/sr-base-" + prop, ignore_errors=True)
+    return baseline_ok[prop]
 for sid in sorted(os.listdir(root)):
     d = os.path.join(root, sid)
     mp = os.path.join(d, "meta.json")
@@ -31,6 +40,9 @@ for sid in sorted(os.listdir(root)):
     prop = meta["property"]
     if not os.path.exists("/verif/harness/props/%s/prop.json" % prop.lower()):
         summary.append((sid, prop, "no check yet"))
+        continue
+    if not baseline(prop):
+        summary.append((sid, prop, "check is not silent on the unchanged tree: result would be meaningless"))
         continue
     wt = "/tmp/sr-" + sid
     subprocess.run(["git", "-C", "/repo", "worktree", "remove", "--force", wt], stderr=subprocess.DEVNULL)
